@@ -690,6 +690,14 @@ m('mulaccown-dot','C14',['MULACC-OWN'],'std/selector/multiplexer.go','''	out := 
 		out = api.MulAcc(out, a[i], api.Sub(b[i], b[len(b)-1]))
 	}
 	return out''',note='the accumulator of MulAcc starts as the caller own variable')
+m('pooldouble-q','C10',['POOL-DOUBLE'],'constraint/bw6-633/solver.go','''	q := pool.BigInt.Get()
+	q.Set(s.q)
+
+	for i := 0; i < nbInputs; i++ {''','''	q := pool.BigInt.Get()
+	defer pool.BigInt.Put(q)
+	q.Set(s.q)
+
+	for i := 0; i < nbInputs; i++ {''',note='a deferred release of the modulus copy added, the explicit release at the end kept')
 json.dump({'comment':'selftest mutants: each patch breaks one rule instance and must be detected by the listed rule(s) of its property; produced by tools/make_selftest.py','mutants':M}, open(os.path.join(root,'selftest','mutants.json'),'w'), indent=1)
 subprocess.run(['git','-C','/repo','worktree','remove','--force',WT],capture_output=True)
 print(len(M),'mutants')
